@@ -125,7 +125,7 @@ func execC14(t *testing.T, prog *hx.Program, dec *simrt.Decider, verbose bool) *
 			}
 		}
 		stored := int64(0) // messages in the stream's log so far
-		expectAt := func(frame []byte, what string) {
+		expectAt := func(frame []byte, what string, reply string) {
 			// the frame was sent to the stream subject: it must appear as the next log entry
 			ok := h.pollFor("stored", 2*time.Second, func() bool {
 				p := n.srv.metadata.GetPartition("s", 0)
@@ -156,6 +156,12 @@ func execC14(t *testing.T, prog *hx.Program, dec *simrt.Decider, verbose bool) *
 						isEnvelope = false
 					}
 				}
+			}
+			// the two headers the server sets itself say where the message really came from
+			h.oc.Checks++
+			if string(got.hdr["subject"]) != "s" || string(got.hdr["reply"]) != reply {
+				h.fail("C14/stream", "C14/stream/forged-origin", "%s frame %x arrived on subject %q with reply %q, but is stored with subject=%q reply=%q", what, trunc(frame, 48), "s", reply, got.hdr["subject"], got.hdr["reply"])
+				return
 			}
 			switch {
 			case certainlyNot && isVerbatim:
@@ -206,6 +212,17 @@ func execC14(t *testing.T, prog *hx.Program, dec *simrt.Decider, verbose bool) *
 			}
 			if r.Pct(30) {
 				m.Headers = map[string][]byte{"h": []byte("1")}
+			}
+			if r.Pct(25) {
+				// headers named like the two the server sets itself ("subject", "reply"), with values that
+				// are not the truth and not even text; an ack inbox, so that the server answers
+				if m.Headers == nil {
+					m.Headers = map[string][]byte{}
+				}
+				forged := [][]byte{[]byte("forged.subject"), {0xff, 0xfe, 0xfd}, {}}[r.Intn(3)]
+				m.Headers[[]string{"subject", "reply"}[r.Intn(2)]] = forged
+				m.AckInbox = "foreign.acks"
+				m.AckPolicy = []client.AckPolicy{client.AckPolicy_LEADER, client.AckPolicy_ALL, client.AckPolicy_NONE}[r.Intn(3)]
 			}
 			base, _ := proto.MarshalPublish(m)
 			frame := append([]byte{}, base...)
@@ -328,7 +345,7 @@ func execC14(t *testing.T, prog *hx.Program, dec *simrt.Decider, verbose bool) *
 			h.do(900, "foreign-publish", func() { foreign.PublishRequest(target, reply, frame) })
 			if target == "s" {
 				onStream++
-				expectAt(frame, what)
+				expectAt(frame, what, reply)
 			} else {
 				simrt.Sleep(20 * time.Millisecond)
 			}
